@@ -3,4 +3,4 @@
 ID=$1; P=${2:-${ID:0:3}}
 mkdir -p /tmp/mv
 { /verif/tools/verify_mutant.sh /tmp/mut/$ID $ID 2>&1 | tail -3
-  if [ -d /verif/seeded/$ID ]; then /verif/tools/run_on_wt.sh /tmp/mut/$ID $P 2>&1 | grep -v "^  \|^$" | tail -6; fi; } > /tmp/mv/$ID.eval.log 2>&1
+  if [ -d /verif/seeded/$ID ]; then /verif/tools/run_on_seeded.sh $ID $P 2>&1 | grep -v "^  \|^$" | tail -6; fi; } > /tmp/mv/$ID.eval.log 2>&1
